@@ -55,7 +55,7 @@ def C01(tier):
         "gate_trials": 20,
         "starve_trials": 4,
         "waiter_schedule_reached": 48,
-        "retargets_while_in_use": 20000,
+        "retargets_while_in_use": 8000,
     }
     rule = ("one case = one trial: a drawn queue graph (serial/concurrent/global/workloop queues, target chains to depth 4), "
             "workload shape (pingpong/flood/mixed/chain/gate/starve), 2-12 foreign client threads, a perturbation profile at the "
